@@ -264,8 +264,13 @@ def _plain_op(draw, n, max_arity=3, allow_phase=False):
         kinds = ["lib", "u1", "native", "named"]
     if allow_phase:
         kinds.append("gphase")
+    if n >= 3 and max_arity >= 3:
+        kinds.append("lib3")
     k = draw(st.sampled_from(kinds))
     perm = draw(st.permutations(list(range(n))))
+    if k == "lib3":
+        g = draw(G.gate_recipes(lambda f: _lib_pred(f) and (f.arity == 3 or f.arity is None), max_arity=3).filter(lambda r: G.arity(r) == 3))
+        return {"k": "lib", "g": g, "w": list(perm[:3])}
     if k == "lib":
         g = draw(G.gate_recipes(_lib_pred, max_arity=min(max_arity, n)))
         return {"k": "lib", "g": g, "w": list(perm[: G.arity(g)])}
@@ -283,16 +288,18 @@ def _plain_op(draw, n, max_arity=3, allow_phase=False):
 
 @st.composite
 def compile_circuits(draw, min_w=1, max_w=3, max_ops=7, nested=True, ignored=True, measure=True, phase=False, only_native=False):
-    r = draw(GC.wires(min_w, max_w))
-    n = len(r["dims"])
+    n = draw(st.sampled_from([w for w in (1, 2, 2, 3, 3, 3) if min_w <= w <= max_w]))
+    r = draw(GC.wires(n, n))
     nops = draw(st.integers(1, max_ops))
     ops = []
     use_ign = ignored and draw(st.integers(0, 3)) == 0
-    use_nest = nested and draw(st.integers(0, 3)) == 0
+    use_nest = nested and draw(st.integers(0, 2)) == 0
     for _ in range(nops):
         if use_nest and draw(st.integers(0, 3)) == 0:
             sub = [draw(_plain_op(n, allow_phase=False)) for _ in range(draw(st.integers(1, 3)))]
             o = {"k": "cop", "ops": sub, "rep": draw(st.sampled_from([1, 1, 2]))}
+        elif only_native == "plus1q" and draw(st.booleans()):
+            o = {"k": "named", "name": draw(st.sampled_from(["H", "H", "T", "S", "X", "Y", "Z"])), "p": 1.0, "w": [draw(st.integers(0, n - 1))]}
         elif only_native:
             o = {"k": "native", "i": draw(st.integers(0, 11)), "p": draw(G.exponents()), "w": list(draw(st.permutations(list(range(n))))[:3])}
         else:
@@ -371,10 +378,10 @@ def compile_cases(draw, kinds=None, thorough=False, max_w=3, max_ops=7):
     unroll = g["k"] in CORE_KINDS
     gp = g["k"] in ("cz", "sqrt_iswap", "syc", "gcz", "ionq", "aria", "forte") and draw(st.integers(0, 5)) == 0
     meas = not (g["k"] == "gcz" and g["eject"])
-    only_native = draw(st.integers(0, 7)) == 0
+    only_native = {0: True, 1: "plus1q"}.get(draw(st.integers(0, 7)), False)
     r = draw(compile_circuits(1, max_w, max_ops, nested=True, ignored=True, measure=meas, phase=gp, only_native=only_native))
     has_cop = any(o["k"] == "cop" for o in r["ops"])
-    deep = bool(has_cop and unroll and draw(st.booleans()))
+    deep = bool(has_cop and unroll and draw(st.integers(0, 2)) != 0)
     return {"circ": r, "gs": g, "passes": draw(st.sampled_from([1, 1, None, 2])), "deep": deep}
 
 
@@ -473,12 +480,12 @@ def _route_pred(f):
 def route_cases(draw, max_n=7, max_ops=12):
     gr = draw(graphs(2, max_n))
     n = gr["n"]
-    m = draw(st.integers(1, n))  # logical qubits
+    m = draw(st.integers(2, n)) if draw(st.integers(0, 9)) else draw(st.integers(1, n))  # logical qubits
     lnames = draw(st.permutations(list(range(m + 2))))[:m]
     lkind = draw(st.sampled_from(["line", "named", "grid"]))
     ops = []
     for _ in range(draw(st.integers(1, max_ops))):
-        kind = draw(st.sampled_from(["g2", "g2", "g2", "g1", "meas", "swap"]))
+        kind = draw(st.sampled_from(["g2", "g2", "g2", "g2", "g2", "g1", "g1", "meas", "swap"]))
         perm = draw(st.permutations(list(range(m))))
         if kind == "g2" and m >= 2:
             g = draw(G.gate_recipes(lambda f: _route_pred(f) and f.arity == 2, max_arity=2))
@@ -492,7 +499,7 @@ def route_cases(draw, max_n=7, max_ops=12):
             g = draw(G.gate_recipes(lambda f: _route_pred(f) and f.arity == 1, max_arity=1))
             ops.append({"k": "lib", "g": g, "w": [perm[0]]})
     final_meas = draw(st.integers(0, 4)) == 0
-    mapper = draw(st.sampled_from(["line", "hard", "hard", "default"]))
+    mapper = draw(st.sampled_from(["line", "hard", "hard", "hard", "default"]))
     case = {"graph": gr, "m": m, "lnames": list(lnames), "lkind": lkind, "ops": ops, "final_meas": final_meas, "mapper": mapper,
             "lookahead": draw(st.sampled_from([8, 1, 2, 0, 3, 20])), "tag": draw(st.booleans())}
     if mapper == "hard":
@@ -656,7 +663,15 @@ def device_ops(draw, nq, n_off, keys=None, min_ops=6, max_ops=14, tags=True):
         on = draw(st.integers(0, 3)) != 0 or n_off == 0
         cand = list(range(nq)) if on and nq >= ar else list(range(tot))
         w = list(draw(st.permutations(cand)))[:ar]
-        out.append({"g": k, "w": w, "tag": draw(st.sampled_from(TAGS)) if tags else "none"})
+        if not tags:
+            tag = "none"
+        elif k in ("Z_T", "S"):
+            tag = draw(st.sampled_from(["none", "physz", "physz", "other"]))
+        elif k in ("SYC", "FSIM_SYC", "FSIM_SQRT_ISWAP", "FSIM_SQRT_ISWAP_INV", "FSIM_CZ", "FSIM_OTHER"):
+            tag = draw(st.sampled_from(["none", "none", "fsim_model", "two_pulse", "physz"]))
+        else:
+            tag = draw(st.sampled_from(TAGS))
+        out.append({"g": k, "w": w, "tag": tag})
     return out
 
 
@@ -670,11 +685,19 @@ def grid_device_cases(draw):
     allp = [(a, b) for a in range(nq) for b in range(a + 1, nq)]
     pairs = draw(st.lists(st.sampled_from(allp), max_size=len(allp), unique=True))
     pairs = [list(p) if draw(st.booleans()) else [p[1], p[0]] for p in pairs]
-    specs = draw(st.lists(st.sampled_from(GRID_SPECS), min_size=1, max_size=len(GRID_SPECS), unique=True))
+    specs = draw(st.lists(st.sampled_from(GRID_SPECS), min_size=3, max_size=len(GRID_SPECS), unique=True))
+    from vf.ref import c07_ref as R
+
+    members = [k for k in POOL_KEYS if any(R.grid_member(k, t, specs) for t in ("none", "physz", "fsim_model", "two_pulse"))]
+    ops = draw(device_ops(nq, len(off), min_ops=3, max_ops=7))
+    if members:
+        ops = ops + draw(device_ops(nq, len(off), keys=members, min_ops=3, max_ops=7))
+    order = draw(st.permutations(list(range(len(ops)))))
+    ops = [ops[i] for i in order]
     return {"qubits": [list(q) for q in qs], "off": [list(q) for q in off], "off_kind": draw(st.sampled_from(["grid", "grid", "line", "named"])),
             "pairs": pairs, "specs": specs, "via": draw(st.sampled_from(["proto", "proto", "metadata", "roundtrip"])),
             "distract": draw(st.booleans()), "durations": draw(st.booleans()),
-            "ops": draw(device_ops(nq, len(off))), "circ": draw(st.lists(st.integers(0, 13), max_size=6))}
+            "ops": ops, "circ": draw(st.lists(st.integers(0, 13), max_size=6)), "circ_valid_only": draw(st.booleans())}
 
 
 def build_grid_device(case):
@@ -780,7 +803,7 @@ def vendor_device_cases(draw):
     nq = draw(st.integers(1, 5))
     n_off = draw(st.integers(1, 2))
     case = {"kind": kind, "nq": nq, "n_off": n_off, "circ": draw(st.lists(st.integers(0, 13), max_size=6)),
-            "new_moments": draw(st.booleans())}
+            "new_moments": draw(st.booleans()), "circ_valid_only": draw(st.booleans())}
     if kind == "ionq":
         case["as_int"] = draw(st.booleans())
         case["xs"] = list(draw(st.permutations(list(range(8)))))[: nq + n_off]
